@@ -164,6 +164,30 @@ claim("C15",
       "sequence safe). Known finding D31: Man objects inside the maneuvers list are shared by copy().",
       "ownership/freshness abstract interpretation + ast pattern rules (compute-then-commit, sibling agreement)", "§3 C15")
 
+claim("C09",
+      "Clause-level: out-of-table queries raise before any interpolation (inclusive bounds) and the refusal is re-raised "
+      "on both arms of the dated wrapper; abscissas are reference-scale MJDs at construction and at call; interpolated "
+      "points carry the ephemeris' own frame and form and the cached interpolator is dropped when the points change; "
+      "Lagrange window arithmetic as integer term algebra (stop - start = order, edge shifts preserve the length, the "
+      "bracket lies inside, short tables raise); the linear formula is y0 + (y1-y0)(x-x0)/(x1-x0) on consecutive nodes "
+      "and exact at both nodes.",
+      "Not decided: node exactness and polynomial reproduction of the vectorised Lagrange basis (numpy broadcasting is "
+      "outside the term algebra; only its expression shape is frozen), centimetre accuracy.",
+      "ast pattern rules + canonical term algebra on the window arithmetic and the linear formula", "§3 C09")
+
+claim("C10",
+      "Clause-level (protocol): listeners are cleared unconditionally before the first listen() of every iteration; "
+      "listen() checks against the previous sample, bisects (prev, orb), then remembers orb unconditionally, resets the "
+      "sample's event label, returns events sorted by date, and both iter()s yield events before the sample; the "
+      "bisection keeps the crossing inside, halves, and stops below the 1 us resolution; every override of check() "
+      "conjoins the base sign test; the nine-listener table (event classes returned by info(), label direction "
+      "expressions, watched quantities, same frame/form for watch and label); visibility() does not mutate the caller's "
+      "list and filters on the station's own event classes.",
+      "Not decided: completeness w.r.t. sampling for discontinuous quantities, sharpness in microseconds, conical-shadow "
+      "geometry of LightListener, agreement with closed-form event times.",
+      "ast protocol rules (ordering/dominance in generator bodies), override census over the class hierarchy, "
+      "reaching-definitions mutation check", "§3 C10")
+
 NOT_YET = "check not built yet in this revision; rules designed in DESIGN.md §3 — claimed once its checker is committed"
 
 ALL = [f"C{i:02d}" for i in range(1, 21)]
